@@ -21,7 +21,7 @@ ASSUMPTIONS = ["only sampled interleavings are observed (no claim about all sche
                "yield injection happens only at Python line boundaries, where the interpreter may switch threads anyway"]
 CASE_TIMEOUT = 600
 
-OPS = ["full", "cols", "filter", "cats", "slice", "iter", "head", "stats", "pickle", "count", "pick", "pstats", "slice_stats"]
+OPS = ["full", "cols", "filter", "cats", "slice", "iter", "head", "stats", "pickle", "count", "pick", "pstats", "slice_stats", "copy"]
 # (ParquetFile.dtypes is a plain attribute that every to_pandas(categories=...) call overwrites, sequentially too; it is not one
 #  of the operations the property lists and is not used as a probe here)
 
@@ -39,6 +39,11 @@ def gen_cases(tier, seed):
         cases.append({"id": "F/%d/%d" % (seed, i), "seed": int(rng.integers(0, 2 ** 31)), "threads": int([4, 8, 8, 16][int(rng.integers(0, 4))]),
                       "ops_per_thread": int(rng.integers(1, 3)), "scheme": ["simple", "hive"][i % 2], "nrg": int(rng.integers(30, 70)),
                       "yield_p": [0.0, 0.05, 0.2][i % 3], "kind": "read", "fresh": True})
+    # one handle on an OPEN FILE OBJECT shared by the threads (pickling such a handle is not possible and is left out)
+    for i in range(20 if tier == "quick" else 300):
+        cases.append({"id": "FO/%d/%d" % (seed, i), "seed": int(rng.integers(0, 2 ** 31)), "threads": int([4, 8][i % 2]),
+                      "ops_per_thread": int(rng.integers(3, 7)), "scheme": "simple", "nrg": int(rng.integers(10, 25)),
+                      "yield_p": [0.0, 0.05][i % 2], "kind": "read", "filelike": True})
     for i in range(30 if tier == "quick" else 300):
         cases.append({"id": "W/%d/%d" % (seed, i), "seed": int(rng.integers(0, 2 ** 31)), "threads": int([2, 4, 8][int(rng.integers(0, 3))]),
                       "yield_p": [0.0, 0.05][i % 2], "kind": "write", "parts": int(rng.integers(3, 9))})
@@ -125,6 +130,9 @@ def do_op(pf, op):
         return hashlib.sha1(repr(sorted((a, sorted((c, repr(v)) for c, v in b.items())) for a, b in s.items())).encode()).hexdigest()[:16]
     if k == "pickle":
         return _hash_df(pickle.loads(pickle.dumps(pf)).to_pandas())
+    if k == "copy":
+        import copy
+        return _hash_df(copy.copy(pf).to_pandas())
     if k == "count":
         return repr((int(pf.count()), len(pf), pf.info["rows"]))
     if k == "dtypes":
@@ -199,10 +207,18 @@ def run_case(case):
         path = C.fresh_path(".parq" if scheme == "simple" else "")
         # (every other dataset leaves the bounds of its text columns out, as the default does: statistics then carry "no bound" entries)
         fastparquet.write(path, df, row_group_offsets=10, file_scheme=scheme, stats=True if case["seed"] % 2 else "auto")
-        pf = fastparquet.ParquetFile(path)
+        fobj = None
+        if case.get("filelike") and scheme == "simple":
+            fobj = open(path, "rb")
+            pf = fastparquet.ParquetFile(fobj)        # a handle on an open file object, shared by all threads
+            counters["shared_file_object_runs"] = 1
+        else:
+            pf = fastparquet.ParquetFile(path)
         nrg = len(pf.row_groups)
         T = case["threads"]
         plans = [make_ops(rng, nrg, case["ops_per_thread"]) for _ in range(T)]
+        if case.get("filelike"):
+            plans = [[op for op in plan if op["k"] not in ("pickle",)] or [{"k": "full"}] for plan in plans]
         fresh = bool(case.get("fresh"))
         if fresh:
             for ti, plan in enumerate(plans):
@@ -364,4 +380,4 @@ def run_write_case(case, rng, res, counters, y):
 
 
 def required(tier):
-    return {"runs": 60, "ops_overlapping": 1000, "ov_slice_vs_read": 100, "part_files_compared": 30, "yield_injections": 1000, "fresh_handle_runs": 30, "statistics_property_ops": 300}
+    return {"runs": 60, "ops_overlapping": 1000, "ov_slice_vs_read": 100, "part_files_compared": 30, "yield_injections": 1000, "fresh_handle_runs": 30, "statistics_property_ops": 300, "shared_file_object_runs": 15}
